@@ -47,6 +47,22 @@ int main(int argc,char**argv){
       }
     }
   }
+  long tl[37]; memset(tl,0,sizeof tl); long tl2=0;
+  #pragma omp parallel
+  {
+    #pragma omp single
+    {
+      #pragma omp taskloop grainsize(5)
+      for(int i=0;i<37;i++) tl[i]+=i+1;
+      #pragma omp taskloop num_tasks(3)
+      for(int i=36;i>=0;i-=2) { 
+        #pragma omp atomic
+        tl2+=i;
+      }
+    }
+  }
+  long tls=0; for(int i=0;i<37;i++) tls+=tl[i];
+  if(tls!=37*38/2||tl2!=342){ printf("taskloop wrong: %ld %ld\n",tls,tl2); return 1; }
   uint64_t st[32]; simgomp_end(st); char buf[256]; int e=simgomp_error(buf,256);
   double s=0; for(int i=0;i<10;i++) s+=acc[i];
   printf("nt=%d secs=%d%d%d accsum=%g usum=%llu tasks=%ld err=%d %s\n",nt,secs[0],secs[1],secs[2],s,usum,tasks,e,buf);
